@@ -46,7 +46,8 @@ class Src(object):
             raise RuntimeError('compile() does not terminate: work list is not draining')
         if o == 1:
             self.log.append(('get', self.k, i, 'ok'))
-            return MibInfo(name=name, path='src%d/%s' % (self.k, name), file=name + '.mib', mtime=10), (self.k, i)
+            # (one path for everything a source serves - as CallbackReader does; nothing may key on it)
+            return MibInfo(name=name, path='src%d' % self.k, file=name + '.mib', mtime=10), (self.k, i)
         if o == 0:
             self.log.append(('get', self.k, i, 'nf'))
             raise error.PySmiReaderFileNotFoundError('nf')
@@ -173,6 +174,7 @@ for _n, _t, _d in (('s1', int, 1), ('s2', int, 0), ('par', int, 0), ('sym', bool
 for _n in ('noDeps', 'rebuild', 'dryRun', 'genTexts', 'ignoreErrors'):
     VARS.append((_n, bool, False))
 VARS.append(('writeMibs', bool, True))
+VARS.append(('twice', bool, False))
 VARS.extend([('M', int, 2), ('nsrc', int, 1), ('nsr', int, 0), ('nbo', int, 0)])
 DEFAULTS = dict((n, d) for n, t, d in VARS)
 RANGES = {'s1': (0, 2), 's2': (0, 2), 'par': (0, 4), 'sr1': (0, 3), 'sr2': (0, 3), 'bo1': (0, 1), 'bo2': (0, 1)}
@@ -236,6 +238,10 @@ def run(c):
     comp.addSearchers(*[Searcher(k, o, log) for k, o in enumerate(c.sr)])
     comp.addBorrowers(*[Borrower(k, o, log) for k, o in enumerate(c.bo)])
     try:
+        if c.kw.get('twice'):
+            # C12 / C09: what a call yields does not depend on what the same compiler object did before
+            comp.compile(*[req_name(c, i) for i in c.req], **c.opts)
+            del log[:]
         res = comp.compile(*[req_name(c, i) for i in c.req], **c.opts)
     except Exception as e:
         return None, log, e
@@ -603,7 +609,22 @@ def self_cannot_compile(c, log, i):
     return not symok
 
 
-ORACLES = {'C07': oracle_C07, 'C08': oracle_C08, 'C09': oracle_C09, 'C10': oracle_C10, 'C19': oracle_C19}
+def oracle_C13(c, res, log, exc):
+    """in dry-run mode, or with writing disabled, nothing is handed to the writer for real (the file system is not modified)"""
+    if exc is not None or res is None:
+        return False
+    for e in log:
+        if e[0] == 'put':
+            if not c.opts['writeMibs']:
+                return False                        # writing disabled: the writer is not even called
+            if c.opts['dryRun'] and not e[3]:
+                return False                        # dry run: the writer is told so
+            if not c.opts['dryRun'] and e[3]:
+                return False
+    return True
+
+
+ORACLES = {'C13': oracle_C13, 'C07': oracle_C07, 'C08': oracle_C08, 'C09': oracle_C09, 'C10': oracle_C10, 'C19': oracle_C19}
 
 
 def _check(oracle, kw):
@@ -660,7 +681,7 @@ def shards(tier):
     """(name, free variables, overrides, CPU timeout, bounds text); everything not free is concrete."""
     out = []
     Q = 300
-    out.append(('graph2', _imps(2) + _v('s1', 2) + _v('par', 2) + _v('gen', 2) + ['ignoreErrors'], dict(M=2), Q,
+    out.append(('graph2', _imps(2) + _v('s1', 2) + _v('par', 2) + _v('gen', 2) + ['ignoreErrors', 'twice'], dict(M=2), Q,
                 '2 modules, 1 source: all 16 import graphs x source x parser x codegen outcomes x ignoreErrors'))
     out.append(('symwr2', _v('sym', 2) + _v('wr', 2) + _v('par', 2) + ['ignoreErrors', 'imp_0_1', 'imp_1_0', 'req_1'],
                 dict(M=2), Q, '2 modules: symtab/writer/parser outcomes x ignoreErrors x request set'))
@@ -715,7 +736,7 @@ def shards(tier):
 
 
 # quick shards are split on these variables (enumerated per process) so that all cores are used and the wall time drops
-SPLIT = {'graph2': ['ignoreErrors', 's1_0'], 'symwr2': ['ignoreErrors', 'req_1'], 'searchers2': ['noDeps', 'sr1_0'],
+SPLIT = {'graph2': ['ignoreErrors', 's1_0', 'twice'], 'symwr2': ['ignoreErrors', 'req_1'], 'searchers2': ['noDeps', 'sr1_0'],
          'borrow2': ['noDeps', 'ignoreErrors'], 'sources2': ['s1_0'], 'nowrite2': ['writeMibs'], 'borrowfile2': ['par_0', 'req_1']}
 
 
@@ -730,6 +751,8 @@ def conditions(prop, tier):
     import itertools
     out = []
     for name, free, over, timeout, bounds in shards(tier):
+        if prop == 'C13' and name != 'nowrite2':
+            continue
         split = [v for v in SPLIT.get(name, []) if v in free]
         rest = [v for v in free if v not in split]
         for combo in itertools.product(*[_values(v) for v in split]):
